@@ -105,24 +105,32 @@ theorem stepResize_link {s s' : State} {i n old : Nat} {isClose : Bool} {pc : ZP
     (h : s.ops[i]? = some (.resize n isClose pc old)) (l : Link s)
     (hs : stepResize s i n isClose pc old = some s') : Link s' := by
   cases pc
-  all_goals simp only [stepResize, finishResize, returnResize] at hs
-  · -- check
-    repeat' split at hs
-    all_goals (simp only [Option.some.injEq] at hs; subst hs)
-    all_goals link_leaf l h
+  all_goals simp only [stepResize, finishResize] at hs
   · -- lock
     split at hs
     · simp at hs
     · rename_i hl
       repeat' split at hs
       all_goals (simp only [Option.some.injEq] at hs; subst hs)
+      · -- close(): the semaphore is closed inside the critical section
+        refine l.update h rfl l.wf.close ?_ (fun _ _ _ => Or.inr rfl) ?_
+          (fun hq => absurd hq (by simp [Op.isQ])) (fun _ => rfl) (Or.inl ⟨rfl, rfl⟩)
+        · intro j _ hj
+          have := (Sem.mem_waiting_close s.sem j).mp hj
+          simp only [Sem.waiting, List.mem_append]
+          exact Or.inr this
+        · intro hi
+          have := (Sem.mem_waiting_close s.sem i).mp hi
+          exact absurd (by simp only [Sem.waiting, List.mem_append]; exact Or.inr this)
+            (l.not_waiting h rfl)
+      · -- resize on a closed pool
+        link_leaf l h
       · exact l.update h rfl l.wf (fun _ _ hj => hj) (fun _ _ hj => Or.inl hj)
           (fun hi => absurd hi (l.not_waiting h rfl)) (fun hq => absurd hq (by simp [Op.isQ]))
           (fun hc => hc) (Or.inr (Or.inl ⟨rfl, rfl, hl, rfl⟩))
       · exact l.update h rfl l.wf (fun _ _ hj => hj) (fun _ _ hj => Or.inl hj)
           (fun hi => absurd hi (l.not_waiting h rfl)) (fun hq => absurd hq (by simp [Op.isQ]))
           (fun hc => hc) (Or.inr (Or.inl ⟨rfl, rfl, hl, rfl⟩))
-      · exact Link.frame l h rfl l.wf (fun _ => Iff.rfl) rfl rfl rfl hl.symm rfl
       · exact Link.frame l h rfl l.wf (fun _ => Iff.rfl) rfl rfl rfl hl.symm rfl
   · -- shrink
     repeat' split at hs
@@ -146,19 +154,7 @@ theorem stepResize_link {s s' : State} {i n old : Nat} {isClose : Bool} {pc : ZP
     repeat' split at hs
     all_goals (simp only [Option.some.injEq] at hs; subst hs)
     all_goals exact Link.unlock l h rfl (l.wf.addPermits (n - old)) (Sem.mem_waiting_addPermits s.sem (n - old)) rfl rfl rfl rfl rfl rfl
-  · -- closeSem
-    simp only [Option.some.injEq] at hs
-    subst hs
-    refine l.update h rfl l.wf.close ?_ (fun _ _ _ => Or.inr rfl) ?_
-      (fun hq => absurd hq (by simp [Op.isQ])) (fun _ => rfl) (Or.inl ⟨rfl, rfl⟩)
-    · intro j _ hj
-      have := (Sem.mem_waiting_close s.sem j).mp hj
-      simp only [Sem.waiting, List.mem_append]
-      exact Or.inr this
-    · intro hi
-      have := (Sem.mem_waiting_close s.sem i).mp hi
-      exact absurd (by simp only [Sem.waiting, List.mem_append]; exact Or.inr this)
-        (l.not_waiting h rfl)
+
 
 theorem startOp_link {s s' : State} {sp : Spec} (l : Link s)
     (hs : startOp s sp = some s') : Link s' := by
